@@ -204,6 +204,23 @@ def check_case(case, rec):
                 gap = bool(wl.local_swap_ok(col, adj)) or wl.gap_b(m, wl.orbits(col, adj))
             except TimeoutError:
                 gap = True
+            if not gap:
+                # the strings are canonical SMILES of cut-out environments: an environment can fall into a C01 finding although the
+                # whole molecule does not (ethylcyclooctatetraene: the radius-4 environment opposite to the substituent is the bare
+                # Kekule annulene) - judge the environments that differ
+                from chython import smiles as _smiles
+                for k in set(mhs) | set(rm):
+                    if sorted(mhs.get(k, ())) != sorted(rm.get(k, ())):
+                        for t in set(mhs.get(k, ())) | set(rm.get(k, ())):
+                            try:
+                                frag = _smiles(t)
+                                c2, a2 = wl.constitution(frag)
+                                if wl.local_swap_ok(c2, a2) or wl.gap_b(frag, wl.orbits(c2, a2)):
+                                    gap = True
+                            except TimeoutError:
+                                gap = True
+                            except Exception:
+                                pass
             if gap or any(b.order == 8 for *_, b in m.bonds()):
                 rec.count('morgan environment strings differ inside a C01 gap / known finding (canonical strings of fragments: not asserted)')
                 gap = True
